@@ -192,6 +192,7 @@ pub struct Stats {
     pub cancelled_responses: u64,
     pub reference_sessions: u64,
     pub errors_compared: u64,
+    pub disk_seen_early: u64,
     pub oracle_unstable: u64,
     pub diagnostics_compared: u64,
     pub nontrivial: bool,
@@ -316,7 +317,9 @@ pub fn check(s: &Session, h: &History, stats: &mut Stats) -> Option<Violation> {
         }
     }
     // (d) a probe request after quiescence is answered with a result
+    let probe_sent = h.events.iter().any(|e| matches!(e, Ev::Sent { op, .. } if matches!(&s.ops[*op].op, Op::Request { id: 9000, .. })));
     match resp.get(&9000).and_then(|v| v.first()) {
+        _ if !probe_sent => {}
         Some(r) if r.get("result").is_some() => {}
         other => {
             return Some(Violation {
@@ -461,6 +464,50 @@ pub fn check(s: &Session, h: &History, stats: &mut Stats) -> Option<Violation> {
             });
             if agree_elsewhere || refs_disagree {
                 stats.oracle_unstable += 1;
+                continue;
+            }
+            // The disk is not part of the message stream: a file the client wrote AFTER sending this
+            // request is on disk whenever the server happens to look (the loader walks the package
+            // when the main loop gets to an earlier didOpen). Accept the answer of a reference
+            // that has seen more of the disk writes the client had performed by the time the
+            // answer arrived.
+            let n_disk_now: usize = version.iter().find(|(u, _)| u == "#disk_ops").and_then(|(_, t)| t.parse().ok()).unwrap_or(0);
+            let recv_step = h.events.iter().find_map(|e| match e {
+                Ev::Recv { msg, step } if msg.get("method").is_none() && msg.get("id").and_then(|x| x.as_i64()) == Some(*id) => Some(*step),
+                _ => None,
+            });
+            let mut later_disk_explains = false;
+            for more in (n_disk_now + 1)..=disk_ops.len() {
+                let op_idx = disk_ops[more - 1];
+                let performed_at = h.events.iter().find_map(|e| match e { Ev::Sent { op, step } if *op == op_idx => Some(*step), _ => None });
+                if performed_at.is_none() || recv_step.map_or(false, |r| performed_at.unwrap() > r) {
+                    break;
+                }
+                let root_uri = format!("file://{}", s.root);
+                let mut ops = preamble(Some(&root_uri));
+                // disk first: the loader may have seen it already at the first open
+                for k2 in disk_ops.iter().take(more) {
+                    if matches!(s.ops[*k2].op, Op::Disk(_)) {
+                        ops.push(PlannedOp::new(s.ops[*k2].op.clone()));
+                    }
+                }
+                for (u, t) in version {
+                    if u != "#disk_ops" {
+                        ops.push(PlannedOp::new(Op::Open { uri: u.clone(), text: t.clone() }));
+                    }
+                }
+                ops.push(PlannedOp::new(Op::Barrier));
+                ops.push(PlannedOp::new(s.ops[reqs[k]].op.clone()));
+                ops.push(PlannedOp::new(Op::Barrier));
+                let ah = reference_session(s, ops, s.hash_seed);
+                stats.reference_sessions += 1;
+                if same(ah.responses().get(id).and_then(|v| v.first())) {
+                    later_disk_explains = true;
+                    break;
+                }
+            }
+            if later_disk_explains {
+                stats.disk_seen_early += 1;
                 continue;
             }
             let Op::Request { method, .. } = &s.ops[reqs[k]].op else { continue };
